@@ -146,7 +146,7 @@ impl<B: Sym> HuffMachine<B> {
         }
     }
 
-    fn source_from(counts: &BTreeMap<B, u64>) -> HuffmanContainer<B> {
+    pub fn source_from(counts: &BTreeMap<B, u64>) -> HuffmanContainer<B> {
         let mut src = HuffmanContainer::<B>::default();
         for (s, n) in counts {
             let mut left = *n;
@@ -523,6 +523,136 @@ impl<B: Sym> Machine for HuffMachine<B> {
             self.g.generation,
             self.merges
         ))
+    }
+    fn drain_tags(&mut self) -> Vec<String> {
+        std::mem::take(&mut self.tags)
+    }
+}
+
+// ---------------------------------------------------------------------------------------------
+// C15: raw vs Huffman-encoded items (same and different codes) compare like the owned values
+
+pub struct HuffCmpMachine<B: Sym> {
+    profile: Profile,
+    items: Vec<Vec<B>>,
+    raw: HuffmanContainer<B>,
+    c1: HuffmanContainer<B>,
+    c2: HuffmanContainer<B>,
+    idx: Vec<[(usize, usize); 3]>,
+    done: bool,
+    tags: Vec<String>,
+}
+
+impl<B: Sym> HuffCmpMachine<B> {
+    pub fn new(profile: Profile) -> Self {
+        HuffCmpMachine {
+            profile,
+            items: vec![],
+            raw: Default::default(),
+            c1: Default::default(),
+            c2: Default::default(),
+            idx: vec![],
+            done: false,
+            tags: vec![],
+        }
+    }
+}
+
+impl<B: Sym> Machine for HuffCmpMachine<B> {
+    fn name(&self) -> String {
+        format!("huffman-cmp/{}/{}", B::TY, self.profile.name)
+    }
+    fn reset(&mut self) {
+        self.done = false;
+        let syms: Vec<B> = self.profile.counts.iter().map(|c| B::from_u16(c.0)).take(3).collect();
+        let mut items: Vec<Vec<B>> = vec![vec![]];
+        let mut frontier: Vec<Vec<B>> = vec![vec![]];
+        for _ in 0..3 {
+            let mut next = Vec::new();
+            for f in &frontier {
+                for s in &syms {
+                    let mut n = f.clone();
+                    n.push(*s);
+                    next.push(n);
+                }
+            }
+            items.extend(next.iter().cloned());
+            frontier = next;
+        }
+        let counts1: BTreeMap<B, u64> = self.profile.counts.iter().map(|(s, n)| (B::from_u16(*s), *n)).collect();
+        // a different code for the same alphabet: counts reversed and squared
+        let n = self.profile.counts.len();
+        let counts2: BTreeMap<B, u64> = self
+            .profile
+            .counts
+            .iter()
+            .enumerate()
+            .map(|(i, (s, _))| (B::from_u16(*s), { let c = self.profile.counts[n - 1 - i].1; c * c + i as u64 }))
+            .collect();
+        let s1 = HuffMachine::<B>::source_from(&counts1);
+        let s2 = HuffMachine::<B>::source_from(&counts2);
+        self.raw = Default::default();
+        self.c1 = HuffmanContainer::merge_regions(std::iter::once(&s1));
+        self.c2 = HuffmanContainer::merge_regions(std::iter::once(&s2));
+        self.idx.clear();
+        for it in &items {
+            self.idx.push([self.raw.push(it.as_slice()), self.c1.push(it.as_slice()), self.c2.push(it.as_slice())]);
+        }
+        self.items = items;
+    }
+    fn enabled(&self) -> Vec<OpId> {
+        if self.done {
+            vec![]
+        } else {
+            (0..self.items.len() as u32).collect()
+        }
+    }
+    fn describe(&self, op: OpId) -> String {
+        format!("compare item {} in 4 representations with every item in 4 representations", crate::spec::show(&self.items[op as usize]))
+    }
+    fn step(&mut self, op: OpId) -> Step {
+        self.done = true;
+        let i = op as usize;
+        let names = ["raw", "coded", "coded under another code", "borrowed from owned"];
+        type W<'a, B> = <HuffmanContainer<B> as Region>::ReadItem<'a>;
+        let get = |k: usize, rep: usize| -> W<'_, B> {
+            match rep {
+                0 => self.raw.index(self.idx[k][0]),
+                1 => self.c1.index(self.idx[k][1]),
+                2 => self.c2.index(self.idx[k][2]),
+                _ => <W<'_, B> as IntoOwned>::borrow_as(&self.items[k]),
+            }
+        };
+        let mut pairs = 0u64;
+        for j in 0..self.items.len() {
+            let want = self.items[i].cmp(&self.items[j]);
+            for ra in 0..4 {
+                for rb in 0..4 {
+                    let (x, y) = (get(i, ra), get(j, rb));
+                    let got = match guard(|| (x == y, x.partial_cmp(&y), x.cmp(&y))) {
+                        Ok(g) => g,
+                        Err(p) => return Step::Violation(format!("comparison panicked: {p}")),
+                    };
+                    if got != (want == std::cmp::Ordering::Equal, Some(want), want) {
+                        return Step::Violation(format!(
+                            "x = {} ({}), y = {} ({}): (==, partial_cmp, cmp) = {:?}, the owned values compare {:?}",
+                            crate::spec::show(&self.items[i]),
+                            names[ra],
+                            crate::spec::show(&self.items[j]),
+                            names[rb],
+                            got,
+                            want
+                        ));
+                    }
+                    pairs += 1;
+                }
+            }
+        }
+        self.tags.push(format!("pairs:{pairs}"));
+        Step::Ok
+    }
+    fn fingerprint(&self) -> Option<String> {
+        None
     }
     fn drain_tags(&mut self) -> Vec<String> {
         std::mem::take(&mut self.tags)
